@@ -162,6 +162,8 @@ def _item(sel: int, g: str) -> str:
 
 
 FREE = 2          # selector value meaning "the free text g"
+# optional whitespace around the commas of the X-Forwarded-For list (none / after / before / both, SP or HTAB)
+SEPS = [", ", " ,", ",", " , ", ",\t", "\t,", " \t, \t"]
 MODES = [  # (https socket, dirty earlier request, end by close, scheme header)
     (False, False, False, None),
     (True, True, False, ("X-Scheme", "http")),
@@ -182,7 +184,7 @@ def classify_ip(**kw):
     return None
 
 
-def pre_ip(rsel: int, xn: int, sels: List[int], g: str, tmask: int, mode: int) -> bool:
+def pre_ip(rsel: int, xn: int, sels: List[int], g: str, tmask: int, mode: int, ws: int) -> bool:
     if not (0 <= rsel <= 5 and 0 <= xn <= P.NX and (rsel < P.NSEL or rsel == 5)):
         return False
     # dense shard key (no empty shards): X-Real-Ip selector (absent = NSEL) x number of X-Forwarded-For items
@@ -198,18 +200,23 @@ def pre_ip(rsel: int, xn: int, sels: List[int], g: str, tmask: int, mode: int) -
             free = True
     if not (len(g) <= ((P.G if xn <= 1 else P.G2) if free else 0) and _ok_chars(g)):
         return False
-    if classify_ip(rsel=rsel, xn=xn, sels=sels, g=g, tmask=tmask) in P.exclude:
+    # whitespace pattern around the list commas: all patterns for lists of pooled items; lists containing the
+    # free text use the first NWF patterns (", " and " ,") to bound the number of symbolic-string paths
+    if not (0 <= ws < ((P.NWF if free else len(SEPS)) if xn >= 2 else 1)):
+        return False
+    if P.exclude and classify_ip(rsel=rsel, xn=xn, sels=sels, g=g, tmask=tmask) in P.exclude:
         return False
     return True
 
 
 @harness(
     pre=pre_ip,
-    quick=dict(NX=2, G=2, G2=1, NSEL=3, NT=2, NM=3, timeout=300, reach_timeout=150),
-    thorough=dict(NX=3, G=3, G2=2, NSEL=5, NT=4, NM=4, timeout=900, reach_timeout=300),
+    quick=dict(NX=2, G=2, G2=1, NSEL=3, NT=2, NM=3, NWF=1, timeout=300, reach_timeout=150),
+    thorough=dict(NX=3, G=3, G2=2, NSEL=5, NT=4, NM=4, NWF=2, timeout=900, reach_timeout=300),
     nshards=dict(quick=12, thorough=24),
     reach=["real_ip_wins", "xff_rightmost_untrusted", "trusted_skipped", "garbage_falls_back", "all_trusted",
-           "clean_after_close", "short_numeric_garbage", "real_garbage_xff_valid"],
+           "clean_after_close", "short_numeric_garbage", "real_garbage_xff_valid",
+           "ws_before_comma_trusted_skipped", "tab_after_comma"],
     classify=classify_ip,
     units=["httpserver.HTTPServer.start_request", "httpserver._ProxyAdapter.headers_received/finish/"
            "on_connection_close/_cleanup", "httpserver._CallableAdapter", "httpserver._HTTPRequestContext.__init__/"
@@ -221,13 +228,15 @@ def pre_ip(rsel: int, xn: int, sels: List[int], g: str, tmask: int, mode: int) -
            "X-Real-Ip and each X-Forwarded-For item by symbolic selector from {1.2.3.4, 5.5.5.5, free text g <= G cp "
            "(one shared free text per request), thorough: + 2001:db8::1, 6.6.6.6}; X-Real-Ip may be absent; "
            "trusted_downstream = symbolic subset of {5.5.5.5, 6.6.6.6} (quick: {} or {5.5.5.5})",
+           "list separator by symbolic index from %r (optional whitespace before / after / on both sides of the comma, SP or "
+           "HTAB); lists that contain the free text use only the first NWF of them" % (SEPS,),
            "mode = (socket protocol, an earlier rewriting request on the same connection, end by finish/close, a scheme header)",
            "header characters: printable ASCII, SP, HTAB, no '%' (zone ids are environment dependent)",
            "constant clock for HTTPServerRequest._start_time"],
     outside=["the libc part of is_valid_ip; non-ASCII header text (observation: the real is_valid_ip accepts e.g. '\\xb2' "
              "because getaddrinfo IDNA/NFKC-normalises it to '2')", "AF_UNIX sockets", "more than NX X-Forwarded-For items", "free text longer than G (<= 1 item) / G2 (more items) code points"],
 )
-def h_ip(rsel: int, xn: int, sels: List[int], g: str, tmask: int, mode: int):
+def h_ip(rsel: int, xn: int, sels: List[int], g: str, tmask: int, mode: int, ws: int):
     rsel, xn, tmask, mode = IDX[rsel], IDX[xn], IDX[tmask], IDX[mode]
     https, dirty, close, sch = MODES[mode]
     trusted = _trusted(tmask)
@@ -243,8 +252,9 @@ def h_ip(rsel: int, xn: int, sels: List[int], g: str, tmask: int, mode: int):
     if xn > 0:
         pieces = [_item(sels[k], g) for k in range(xn)]
         xff = pieces[0]
+        sep = SEPS[IDX[ws]]
         for k in range(1, xn):
-            xff = xff + (", " if k == 1 else " ,") + pieces[k]
+            xff = xff + sep + pieces[k]
         xff = _ows(xff)       # the header parser strips optional whitespace around the value
         hdrs.append(("X-Forwarded-For", xff))
         entries = _entries(pieces)
@@ -257,6 +267,11 @@ def h_ip(rsel: int, xn: int, sels: List[int], g: str, tmask: int, mode: int):
         reached("real_ip_wins")
     if real is not None and len(acc) == 2:
         reached("real_garbage_xff_valid")
+    if real is None and xn >= 2 and acc != [SOCK_IP] and entries[-1] in trusted:
+        if sep[0] in " \t":
+            reached("ws_before_comma_trusted_skipped")
+        if sep == ",\t":
+            reached("tab_after_comma")
     if real is None and xff is not None and acc != [SOCK_IP]:
         reached("xff_rightmost_untrusted")
         if entries[-1] in trusted:
